@@ -754,13 +754,23 @@ class History(Driver):
         self.ctx.counters['parse_serial'] = k
         nm = '_hl%d.%s' % (k, rng.choice(['Aa', 'b', 'X']))
         val = 'h%d' % rng.randint(0, 99)
+        # ... and a data name the block already holds (scalar or looped, spelled in another case) is a duplicate:
+        # reported, its value parsed and dropped, what is stored stays as it is
+        held = [orig for lp in b.loops for (orig, norm) in lp.names] if b is not None else []
+        short = [h for h in held if len(h) < 1000]       # (the line must stay within the length limit)
+        dup = rng.choice(short).swapcase() if short and rng.random() < 0.7 else None
         text = '#\\#CIF_2.0\n%s %s\n' % (nm, val)
+        want = [CIF_NO_BLOCK_HEADER]
+        if dup is not None and N.norm(dup) in [N.norm(h) for h in held] and not any(ord(c) <= 0x20 for c in dup):
+            text += '%s dup%d\n' % (dup, k)
+            want.append(CIF_DUP_ITEMNAME)
+            self.ctx.count('duplicate_names_parsed_into_existing')
         res = parsing.parse(L, text.encode('utf-8'), parsing.make_opts(), p, 'accept')
         codes = [e[0] for e in res.errors]
         self.note('cif_parse(header-less text into) -> %d, errors %r' % (res.rc, codes))
         self.expect('cif_parse', res.rc, {CIF_OK}, text, pre='headerless')
-        if codes != [CIF_NO_BLOCK_HEADER]:
-            raise Mismatch('model:cif_parse:headerless:errors', 'header-less text parsed into CIF %d: errors %r reported, expected [%d]' % (ci, codes, CIF_NO_BLOCK_HEADER))
+        if codes != want:
+            raise Mismatch('model:cif_parse:headerless:errors', 'header-less text parsed into CIF %d: errors %r reported, expected %r' % (ci, codes, want))
         if b is None:
             b = CM.MContainer('')
             m.blocks.append(b)
@@ -973,6 +983,7 @@ def coverage(res, n):
         recreate_after_prune=res.count('recreate_after_prune'), stale_handle_cases=res.count('stale_handle_cases'), stale_container_cases=res.count('stale_container_cases'), wide_loops_completed=res.count('wide_loops_completed'),
             stale_container_results=sorted(res.sets.get('stale_container_results', ())),
         parses_into_existing=res.count('parses_into_existing'), headerless_parses_into_existing=res.count('headerless_parses_into_existing'),
+        duplicate_names_parsed_into_existing=res.count('duplicate_names_parsed_into_existing'),
         operation_result_matrix=sorted(res.sets.get('op_rc', ())),
         failing_call_kinds=sorted(res.sets.get('failed_kinds', ())), crashes=res.crashes)
 
